@@ -1138,26 +1138,34 @@ def hash_args_eval(
     # Filter out config args and JobInfo from argument hashing.
     config_args: list = task.get_task_option("config_args", [])
 
-    def keep_arg(param_name: str, value: Any) -> bool:
+    def keep_arg(param_name: typing.Optional[str], value: Any) -> bool:
         return param_name not in config_args and not isinstance(value, JobInfo)
 
-    # Determine the variadic parameter if it exists.
+    # Determine the positional parameters and the variadic parameter if it exists.
+    positional_params: list[str] = []
     var_param_name: typing.Optional[str] = None
     for param in sig.parameters.values():
-        if param.kind == inspect.Parameter.VAR_POSITIONAL:
+        if param.kind in (
+            inspect.Parameter.POSITIONAL_ONLY,
+            inspect.Parameter.POSITIONAL_OR_KEYWORD,
+        ):
+            positional_params.append(param.name)
+        elif param.kind == inspect.Parameter.VAR_POSITIONAL:
             var_param_name = param.name
-            break
 
-    # Filter args to remove config_args.
+    # Filter args to remove config_args. Positional arguments only ever bind to positional
+    # parameters (never to keyword-only ones).
     args2 = [
         arg_value
-        for arg_name, arg_value in zip(sig.parameters, args)
+        for arg_name, arg_value in zip(positional_params, args)
         if keep_arg(arg_name, arg_value)
     ]
 
     # Additional arguments are assumed to be variadic arguments.
     args2.extend(
-        arg_value for arg_value in args[len(sig.parameters) :] if var_param_name not in config_args
+        arg_value
+        for arg_value in args[len(positional_params) :]
+        if keep_arg(var_param_name, arg_value)
     )
 
     # Filter kwargs.
